@@ -9,7 +9,7 @@ Written from the property text / PMS 12.3.3, independently of the structure of `
 * `prescribed` — per helper, the *entries* that must exist in the image afterwards (a declarative
   enumeration: destination directory, one entry per argument, a depth-first listing of a recursively
   installed tree, `lang/manN/name` from the dot-separated parts of a man page name, …) or a rejection;
-* `image` — the image that results from a list of entries (ancestors are directories, later entries win).
+* `imageE` — the image that results from a list of entries (ancestors are directories, later entries win).
 -/
 namespace Pkgcore.C33.Spec
 open Pkgcore.C33
@@ -38,16 +38,16 @@ def pmsDosymRelative (eapi : Nat) : Bool := decide (eapi ≥ 8)
 /-! ## entries -/
 
 inductive Entry
-  | dir (p : Path) (mode : Option Nat)              -- a directory "as if by dodir"; mode applied when given
-  | file (p : Path) (mode : Option Nat) (id : Nat)  -- a copy of source file `id`
-  | link (p : Path) (text : Str)                    -- a symbolic link
+  | dir (p : Path) (mode : Option Attr)             -- a directory "as if by dodir"; mode/owner applied when given
+  | file (p : Path) (mode : Option Attr) (id : Nat) -- a copy of source file `id`, with the requested mode/owner
+  | link (p : Path) (text : Str) (own : Option Attr) -- a symbolic link (owner as requested)
   | newlink (p : Path) (text : Str)                 -- a symbolic link at a path that must be free
   | hard (src p : Path)                             -- a hard link to the image entry `src`
   | keep (p : Path)                                 -- an empty file
   deriving DecidableEq, Repr
 
 def Entry.path : Entry → Path
-  | .dir p _ | .file p _ _ | .link p _ | .newlink p _ | .hard _ p | .keep p => p
+  | .dir p _ | .file p _ _ | .link p _ _ | .newlink p _ | .hard _ p | .keep p => p
 
 /-- last `/`-separated component -/
 def lastComp (s : Str) : Str := (splitOn '/' s).getLast?.getD []
@@ -57,8 +57,8 @@ def under (c : Ctx) (rel : Path) : Path := toPath c.dest ++ rel
 /-- the entry for installing one source object at image path `p` (`none`: not installable) -/
 def leaf (c : Ctx) (p : Path) : Src → Option Entry
   | .file id => some (.file p c.insMode id)
-  | .link text .toFile => some (.link p text)
-  | .link text .toDir => some (.link p text)
+  | .link text .toFile => some (.link p text c.insMode)
+  | .link text .toDir => some (.link p text c.insMode)
   | _ => none
 
 /-- argument checks common to all helpers that take source paths -/
@@ -83,7 +83,7 @@ def tree (c : Ctx) (p : Path) : Src → Except Rej (List Entry)
     let below ← treeKids c p kids
     pure (Entry.dir p c.dirMode :: below)
   | .file id => pure [.file p c.insMode id]
-  | .link text .toFile => pure [.link p text]
+  | .link text .toFile => pure [.link p text c.insMode]
   | .link text .toDir => pure [.newlink p text]
   | .link _ .broken => .error .cannotStat
   | .missing => pure []
@@ -240,7 +240,7 @@ def dosymEntries (c : Ctx) (fs : Fs) (relAllowed relative : Bool) (source target
   else if relative ∧ !isAbs source then .error .relNeedsAbs
   else
     let text := if relative then relativeDosymTarget source target else source
-    pure (parentEntry c target ++ [Entry.link (toPath target) text])
+    pure (parentEntry c target ++ [Entry.link (toPath target) text none])
 
 def dohardEntries (c : Ctx) (source target : Str) : Except Rej (List Entry) :=
   if target.getLast? = some '/' then .error .missingLinkName else
@@ -250,22 +250,26 @@ def dohardEntries (c : Ctx) (source target : Str) : Except Rej (List Entry) :=
 
 /-- every non-root prefix of `p` that is still free becomes a directory -/
 def ensureDirs (u : Umask) (fs : Fs) (p : Path) : Fs :=
-  fun q => if q ≠ [] ∧ q.isPrefixOf p ∧ fs q = none then some (.dir u.dirMode) else fs q
+  fun q =>
+    match fs q with          -- (looked up once: the image is a chain of closures)
+    | some n => some n
+    | none => if q ≠ [] ∧ q.isPrefixOf p then some (.dir u.dirMode) else none
 
-def place (u : Umask) (fs : Fs) : Entry → Fs
+/-- the image with one more entry.  (Wrapped in `Except` — always `.ok` — so that the look-ups happen once, when
+the entry is placed, and not again at every later query of the resulting function.) -/
+def place (u : Umask) (fs : Fs) : Entry → Except Rej Fs
   | .dir p mode =>
     let fs' := ensureDirs u fs p
-    match mode with
-    | some m => if p = [] then fs' else fs'.set p (.dir m)
-    | none => fs'
-  | .file p mode id => fs.set p (.file (mode.getD u.fileMode) id)
-  | .link p text => fs.set p (.link text)
-  | .newlink p text => fs.set p (.link text)
-  | .hard src p => match fs src with | some n => fs.set p n | none => fs
-  | .keep p => match fs p with | some (.file m _) => fs.set p (.file m 0) | _ => fs.set p (.file u.fileMode 0)
-
-def image (u : Umask) (fs : Fs) (es : List Entry) : Fs := es.foldl (place u) fs
-
+    match mode, fs' p with
+    | some a, some (.dir q) => .ok (fs'.set p (.dir (a.over q)))
+    | _, _ => .ok fs'
+  | .file p mode id => .ok (fs.set p (.file ((mode.map (·.over u.fileMode)).getD u.fileMode) id))
+  | .link p text own =>
+    let q := (own.map (·.over u.fileMode)).getD u.fileMode
+    .ok (fs.set p (.link text q.uid q.gid))
+  | .newlink p text => .ok (fs.set p (.link text u.fileMode.uid u.fileMode.gid))
+  | .hard src p => match fs src with | some n => .ok (fs.set p n) | none => .ok fs
+  | .keep p => match fs p with | some (.file m _) => .ok (fs.set p (.file m 0)) | _ => .ok (fs.set p (.file u.fileMode 0))
 
 /-- an entry cannot be placed: a non-directory would have to be a directory or vice versa
 (`unmodelled`: a symbolic link would have to be followed) -/
@@ -277,7 +281,7 @@ def blocked (fs : Fs) (e : Entry) : Option Rej :=
   else if anc.any (isFileAt fs) then some .oserror
   else match e with
     | .dir _ _ => if isLinkAt fs p then some .unmodelled else if isFileAt fs p then some .oserror else none
-    | .file _ _ _ | .link _ _ =>
+    | .file _ _ _ | .link _ _ _ =>
       if p = [] ∨ fs.isDir p ∨ !fs.isDir p.dropLast then some .oserror else none
     | .newlink _ _ => if p = [] ∨ fs p ≠ none ∨ !fs.isDir p.dropLast then some .oserror else none
     | .hard src _ =>
@@ -293,6 +297,9 @@ def imageE (u : Umask) (fs : Fs) : List Entry → Except Rej Fs
   | e :: es =>
     match blocked fs e with
     | some r => .error r
-    | none => imageE u (place u fs e) es
+    | none =>
+      match place u fs e with
+      | .ok fs' => imageE u fs' es
+      | .error r => .error r
 
 end Pkgcore.C33.Spec
